@@ -583,15 +583,15 @@ func (s *Server) checkParams(id string, p *spb.SessionParameters, gotMsg bool) (
 	// The fake server supports both RIB and FIB ACKing (given that we do not have any real
 	// FIB, they are basically the same :-)). It does not (currently) support ALL_PRIMARY
 	// mode of operations.
-	if p.Redundancy == spb.SessionParameters_ALL_PRIMARY {
-		return nil, addModifyErrDetailsOrReturn(status.Newf(codes.Unimplemented, "ALL_PRIMARY redundancy are not supported"), &spb.ModifyRPCErrorDetails{
+	if p.Redundancy != spb.SessionParameters_SINGLE_PRIMARY {
+		return nil, addModifyErrDetailsOrReturn(status.Newf(codes.Unimplemented, "redundancy modes other than SINGLE_PRIMARY are not supported"), &spb.ModifyRPCErrorDetails{
 			Reason: spb.ModifyRPCErrorDetails_UNSUPPORTED_PARAMS,
 		})
 	}
 
 	// The fake server does not (currently) support delete, so we just return an error
 	// if the client is asking for anything other than persisting the entries.
-	if p.Persistence == spb.SessionParameters_DELETE {
+	if p.Persistence != spb.SessionParameters_PRESERVE {
 		return nil, addModifyErrDetailsOrReturn(status.Newf(codes.Unimplemented, "persistence modes other than PRESERVE are not supported"), &spb.ModifyRPCErrorDetails{
 			Reason: spb.ModifyRPCErrorDetails_UNSUPPORTED_PARAMS,
 		})
